@@ -329,8 +329,17 @@ func (e *Engine) sortOf(t types.Type) string {
 		return arraySort(sInt, e.sortOf(u.Elem()))
 	case *types.Tuple:
 		return "TUPLE"
-	case *types.TypeParam:
-		e.unsupported("type parameter %s without instantiation", t)
+	}
+	if tp, ok := t.(*types.TypeParam); ok {
+		// an uninstantiated type parameter: values are handled through their constraint
+		if ci, ok := tp.Constraint().Underlying().(*types.Interface); ok {
+			if ci.NumEmbeddeds() == 1 && ci.NumMethods() == 0 {
+				if u, ok := ci.EmbeddedType(0).(*types.Union); ok && u.Len() == 1 {
+					return e.sortOf(u.Term(0).Type())
+				}
+			}
+			return sIface
+		}
 	}
 	e.unsupported("type %s", t)
 	return sInt
